@@ -1058,3 +1058,45 @@ def c08(ck):
                "compressible and incompressible files for every codec; the public Sha256Writer in front of scripted "
                "short-accepting sinks; non-trivial = distinct digests compared")
     ck.finish()
+
+
+# ------------------------------------------------------------------------------------ C12
+TRACE_MODULE["C12"] = "Trace_C12"
+
+
+@prop("C12")
+def c12(ck):
+    binary = vlib.build_harness()
+    thorough = ck.tier == "thorough"
+    ck.add_tlc(vlib.mc("MC_Extract", "MC_Extract_safe.cfg", ck.scratch, workers=8, timeout=1800))
+    r = vlib.tlc("MC_Extract", "MC_Extract_naive.cfg", ck.scratch, workers=1, timeout=600)
+    if r["ok"] or "ContainedInv is violated" not in r["out"]:
+        raise ToolError("MC_Extract_naive: the specification does not reject the naive extractor")
+    ck.extra["design_counterexample"] = "the naive extractor (join + create through links) violates Contained (as expected)"
+    cases = ck.scratch / "extract_cases.ndjson"
+    ck.add_tlc(vlib.gen_cases("Gen_Extract", "Gen_Extract_thorough.cfg" if thorough else "Gen_Extract_quick.cfg", ck.scratch, cases, timeout=1800, xmx="6g"))
+    def esc(e):
+        e["outside_diff"] = [{"path": "j1/j2/jail/out/victim", "before": "file", "after": "file"}]
+    events = stateless_check(
+        ck, binary, "c12", "Trace_C12", ["--cases", cases, "--n", 300 if thorough else 40],
+        [("Extract", esc), ("ExtractBuilt", esc)],
+        lambda e, r: (f"Extract:{json.dumps(e['entries'], sort_keys=True)}:{e['outcome']}" if e["event"] in ("Extract", "Panic") and "entries" in e
+                      else f"{e['event']}:{e.get('i')}:{e.get('outcome')}") if e else "?",
+        shards=8)
+    ex = [e for e in events if e["event"] == "Extract"]
+    ck.evaluations = len(events)
+    ck.nontrivial = sum(1 for e in ex if e["naive_escapes"]) + sum(1 for e in events if e["event"] == "ExtractBuilt")
+    ck.extra.update(model_packages=len(ex), packages_on_which_a_naive_extractor_escapes=sum(1 for e in ex if e["naive_escapes"]),
+                    benign_model_packages=sum(1 for e in ex if e["model_benign"]),
+                    outcomes={"ok": sum(1 for e in ex if e["outcome"] == "ok"), "err": sum(1 for e in ex if e["outcome"] == "err")},
+                    built_packages_extracted=sum(1 for e in events if e["event"] == "ExtractBuilt"))
+    hostile = next((e for e in ex if e["naive_escapes"]), None)
+    if hostile:
+        ck.samples.append({k: hostile[k] for k in ("entries", "outcome", "outside_diff")})
+    ck.rule = ("every package of <= 2 (3 thorough) entries over the model's hostile alphabet (paths a, b, a/b, ../out/victim, "
+               "a/../../out/x; files, directories, links to ../out, to an absolute outside directory and to b; a fifo), "
+               "hand-encoded and extracted into a scratch jail snapshotted before and after; seeded built packages (nested "
+               "directories, symlinks, all permission bits) extracted and compared with their configuration; non-trivial = "
+               "packages on which the model's naive extractor leaves the target + built packages")
+    ck.assumptions.append("the whole scratch tree (three levels above the target) is snapshotted; effects beyond it would be missed")
+    ck.finish()
